@@ -148,6 +148,25 @@ RETRIES = []      # (case, callback, attempt) of runs repeated after a timeout
 class ImplResult:
     pass
 
+_DROP = {}
+ROT = {'as_user': 0, 'prior': 0}      # how often the generic rotations actually applied (recorded in the evidence)
+def can_drop(tools, uid):
+    """True when the harness can start the parser as the unprivileged user `uid` and that user can reach the binary and the work directory (probed once;
+    a checkout below a 0700 home directory, a harness that is not root, or a sandbox without CAP_SETUID switch the `as_user` rotation off)"""
+    if uid not in _DROP:
+        ok = False
+        if os.geteuid() == 0:
+            d = os.path.join(tools.work, 'dropprobe'); os.makedirs(d, exist_ok=True); f = os.path.join(d, 'readable')
+            open(f, 'w').write('x'); os.chown(d, uid, uid)
+            def pre(): os.setgroups([]); os.setgid(uid); os.setuid(uid)
+            try:
+                ok = all(subprocess.run(['/bin/sh', '-c', 'test -x "$0" && test -r "$1" && test -w "$2" && "$0" --version >/dev/null', b_, f, d], preexec_fn=pre, capture_output=True, timeout=30).returncode == 0
+                         for b_ in [tools.bin] + ([tools.bin_release] if getattr(tools, 'bin_release', None) else []))
+            except Exception: ok = False
+            shutil.rmtree(d, ignore_errors=True)
+        _DROP[uid] = ok
+    return _DROP[uid]
+
 def run_impl(tools, case, cb, datadir=None, outdir=None, release=False, env=None, preexec=None, verbosity=0, keep=False, timeout=90, wrapper=None, prefill=None, _attempt=0):
     """Materialises the case (unless datadir is given), runs one callback, returns an ImplResult.
     A run that exceeds the timeout is repeated (up to 3 attempts): rusty-leveldb 3.0.2 loads the index through an iterator whose read sampling is a symmetric random walk
@@ -172,6 +191,30 @@ def run_impl(tools, case, cb, datadir=None, outdir=None, release=False, env=None
         for name, data in prefill.items():
             with open(os.path.join(outdir, name), 'wb') as f: f.write(data)
     binp = tools.bin_release if release else tools.bin
+    prior = getattr(case, 'prior_coin', None)
+    if prior and outdir and cb in NEEDS_DIR and _attempt == 0:
+        # an earlier run of the same range into the same dump folder, under another --coin (same file names, for most cases the same file lengths, other content):
+        # whatever it leaves behind must not change this run's result (C10 / C13)
+        e0 = dict(os.environ); e0.pop('RBP_VERIF_HOOK', None); e0.setdefault('RAYON_NUM_THREADS', '4'); ROT['prior'] += 1
+        sp, case.coin_spelling = getattr(case, 'coin_spelling', None), prior
+        try:
+            subprocess.run([binp, '-d', datadir] + case.args() + [SUBCMD[cb], outdir], capture_output=True, env=e0, timeout=timeout)
+        except subprocess.TimeoutExpired: pass
+        finally: case.coin_spelling = sp
+    preexec0 = preexec
+    uid = getattr(case, 'as_user', None)
+    if uid and can_drop(tools, uid):
+        ROT['as_user'] += 1
+        # the parser runs as an unprivileged user who may read the blk files and xor.dat (0644, owned by root) but does not own them; only the index (LevelDB takes a LOCK
+        # and writes a LOG) and the dump folder belong to that user
+        for top in [os.path.join(datadir, 'index')] + ([outdir] if outdir else []):
+            for dp, dn, fn in os.walk(top):
+                os.chown(dp, uid, uid)
+                for f_ in fn: os.chown(os.path.join(dp, f_), uid, uid, follow_symlinks=False)
+        inner = preexec
+        def preexec():
+            if inner: inner()
+            os.setgroups([]); os.setgid(uid); os.setuid(uid)
     args = [binp, '-d', datadir] + ['-v'] * max(verbosity, getattr(case, 'verbosity', 0)) + case.args() + [SUBCMD[cb]] + ([outdir] if cb in NEEDS_DIR else [])
     if wrapper: args = wrapper + args
     e = dict(os.environ); e.pop('RBP_VERIF_HOOK', None); e.setdefault('RAYON_NUM_THREADS', '4'); e.update(env or {})      # many runs in parallel: keep the thread count per process small (C13 varies it explicitly)
@@ -185,7 +228,7 @@ def run_impl(tools, case, cb, datadir=None, outdir=None, release=False, env=None
             if own_dd: shutil.rmtree(datadir, ignore_errors=True)
             if own_out: shutil.rmtree(outdir, ignore_errors=True)
             RETRIES.append((case.id, cb, _attempt))
-            return run_impl(tools, case, cb, datadir=None if own_dd else datadir, outdir=None if own_out else outdir, release=release, env=env, preexec=preexec, verbosity=verbosity,
+            return run_impl(tools, case, cb, datadir=None if own_dd else datadir, outdir=None if own_out else outdir, release=release, env=env, preexec=preexec0, verbosity=verbosity,
                             keep=keep, timeout=timeout, wrapper=wrapper, prefill=('stale' if stale and not own_out else (None if stale else prefill)), _attempt=_attempt + 1)
     r = ImplResult(); r.rc = rc; r.stdout = so; r.stderr = se; r.wall = time.time() - t0; r.args = args
     r.files = {}
